@@ -229,8 +229,11 @@ def obligations(prop, tier):
                 out.append(_mut("effect4_%s" % cls, "c02_body", {"cls": cls, "N": 4, "exactN": True, "L": 4}, depth=6, bounds="N=4 L<=4"))
                 out.append(_mut("effect5_%s" % cls, "c02_body", {"cls": cls, "N": 5, "exactN": True, "L": 2}, depth=6, bounds="N=5 L<=2"))
         for cls in ("mixin", "light"):
-            out.append(_mut("history_%s" % cls, "hist_body", {"cls": cls, "N": 3, "L": 1 if q else 2, "K": 2 if q else 3 if cls == "mixin" else 2}, depth=5,
-                            bounds="N<=3, %d successive calls, sequences <= %d" % (2 if q else 3, 1 if q else 2)))
+            if q:
+                out.append(_mut("history_%s" % cls, "hist_body", {"cls": cls, "N": 3, "L": 1, "K": 2}, depth=5, bounds="N<=3, 2 successive calls, sequences <= 1"))
+            else:
+                out.append(_mut("history2_%s" % cls, "hist_body", {"cls": cls, "N": 3, "L": 2, "K": 2}, depth=6, bounds="N<=3, 2 successive calls, sequences <= 2"))
+                out.append(_mut("history3_%s" % cls, "hist_body", {"cls": cls, "N": 2, "L": 1, "K": 3}, depth=5, bounds="N<=2, 3 successive calls"))
         for cls in ("node", "anynode", "symlink"):
             out.append(_mut("ctor_%s" % cls, "ctor_body", {"cls": cls, "N": 3 if q else 4, "L": 2}, depth=4, bounds="N<=%d existing nodes, children sequences <= 2" % (3 if q else 4)))
     elif prop == "C03":
